@@ -29,7 +29,7 @@ Lemma sim_res_ext V d r dv dv' :
   (forall cs, dv cs = dv' cs) -> sim_res V d r dv -> sim_res V d r dv'.
 Proof.
   intros E (H1 & H2 & H3 & H4). split; [exact H1|]. split; [exact H2|]. split; [exact H3|].
-  intros cs Hcs. cbv zeta. rewrite <- E. exact (H4 cs Hcs).
+  intros cs Hcs. cbv beta zeta. rewrite <- E. exact (H4 cs Hcs).
 Qed.
 
 Lemma cov_mono d d' c :
@@ -89,7 +89,7 @@ Proof.
   destruct H0 as (Edg & Eex & _ & Hwf & Hpwf & _).
   unfold sim_res. rewrite Edg. split; [exact Hd|]. split; [apply incl_refl|].
   split; [exact (conj Hwf (conj Hpwf (conj Hdom Hincl)))|].
-  intros cs Hcs. cbv zeta.
+  intros cs Hcs. cbv beta zeta.
   pose proof (Hl cs Hcs) as H1. unfold leaf_ok in H1.
   destruct H1 as (_ & _ & Eidx & _ & _ & Hm).
   split; [intros A _ Hc; exact Hc|]. split; [rewrite Eex; discriminate|].
@@ -164,7 +164,7 @@ Lemma exit_sim V d rb dv (f : option smat -> option smat) r :
 Proof.
   intros (I1 & R1 & K1 & C1) Ex Hf Er Ee Ed. unfold sim_res. rewrite Er, Ee, Ed.
   split; [exact I1|]. split; [exact R1|]. split; [exact K1|].
-  intros cs Hcs. cbv zeta. cbn [fst snd]. specialize (C1 cs Hcs). cbv zeta in C1.
+  intros cs Hcs. cbv beta zeta. cbn [fst snd]. specialize (C1 cs Hcs). cbv zeta in C1.
   destruct C1 as (Ca & Cb & _). split; [|split].
   - intros A HA. destruct (Hf _ _ HA) as [B HB]. exact (Ca B HB).
   - intros _. exact (Cb Ex).
@@ -190,6 +190,12 @@ Variable fuel' : nat.
 Hypothesis IH : forall index s d, incl (stmt_vars s) V -> dg_inv d -> stmt_sim V fuel' index s d.
 
 Definition drec_of (cs : list nat) (s : stmt) (i : nat) : dres := derive fuel' V s cs i.
+
+(* the derivation of an if/else, as Calculus.derive computes it *)
+Definition dv_if (index : nat) (t e : list stmt) (cs : list nat) : dres :=
+  let '(mt, i1) := dlist (drec_of cs) V t (Some sid) index in
+  let '(me, i2) := dlist (drec_of cs) V e (Some sid) i1 in
+  (d_if V mt me, i2).
 
 Lemma rec_ok_IH l : incl (flat_map stmt_vars l) V -> rec_ok V l (compute fuel') drec_of.
 Proof.
@@ -274,15 +280,12 @@ Proof.
   pose proof (SEQB V (compute fuel') drec_of t index rel_empty d (fun _ => Some sid) rt
                 HV (rec_ok_IH t Ht) Hd (acc_ok_empty V d) Et) as S1.
   cbv beta in S1.
-  apply (sim_res_ext V d r
-           (fun cs => let '(mt, i1) := dlist (drec_of cs) V t (Some sid) index in
-                      let '(me, i2) := dlist (drec_of cs) V e (Some sid) i1 in
-                      (d_if V mt me, i2))); [intros cs; reflexivity|].
+  apply (sim_res_ext V d r (dv_if index t e)); [intros cs; reflexivity|].
   destruct S1 as (I1 & R1 & K1 & C1).
   destruct (cr_exit rt) eqn:Ext.
   - (* the first branch exits *)
     injection H as <-. split; [exact I1|]. split; [exact R1|]. split; [exact K1|].
-    intros cs Hcs. cbv zeta. specialize (C1 cs Hcs). cbv zeta in C1.
+    intros cs Hcs. cbv beta zeta. specialize (C1 cs Hcs). cbv zeta in C1. unfold dv_if.
     destruct (dlist (drec_of cs) V t (Some sid) index) as [mt i1].
     destruct (dlist (drec_of cs) V e (Some sid) i1) as [me i2].
     cbn [fst snd] in *. destruct C1 as (Ca & Cb & _). split; [|split].
@@ -299,9 +302,7 @@ Proof.
     assert (Hboth : forall cs, in_domain cs ->
               let c := choice_of_list cs in
               exists mt me i2,
-                (let '(mt, i1) := dlist (drec_of cs) V t (Some sid) index in
-                 let '(me, i2) := dlist (drec_of cs) V e (Some sid) i1 in
-                 (d_if V mt me, i2)) = (d_if V mt me, i2) /\
+                dv_if index t e cs = (d_if V mt me, i2) /\
                 (forall A, mt = Some A -> cov (cr_dg rt) c -> cov d c) /\
                 (mt = None -> cov (cr_dg rt) c) /\
                 (forall A, mt = Some A -> clean (cr_rel rt) c /\ eqV V (rval (cr_rel rt) c) A) /\
@@ -311,6 +312,7 @@ Proof.
                    cr_index re = i2 /\ (me = None -> cov (cr_dg re) c) /\
                    (forall A, me = Some A -> clean (cr_rel re) c /\ eqV V (rval (cr_rel re) c) A))).
     { intros cs Hcs c. specialize (C1 cs Hcs). specialize (C2 cs Hcs). cbv zeta in C1, C2. fold c in C1, C2.
+      unfold dv_if.
       destruct (dlist (drec_of cs) V t (Some sid) index) as [mt i1].
       cbn [fst snd] in C1. destruct C1 as (Ca & _ & Cc). destruct (Cc eq_refl) as (Ei & Cn & Cs).
       rewrite <- Ei.
@@ -320,7 +322,7 @@ Proof.
     destruct (cr_exit re) eqn:Exe.
     + (* the second branch exits *)
       injection H as <-. split; [exact I2|]. split; [exact (incl_tran R1 R2)|]. split; [exact K2|].
-      intros cs Hcs. cbv zeta.
+      intros cs Hcs. cbv beta zeta.
       destruct (Hboth cs Hcs) as (mt & me & i2 & -> & Ca & _ & _ & Da & Db & _). cbn [fst snd].
       split; [|split].
       * intros A HA Hc. destruct (An_main_aux.d_if_some _ _ _ _ HA) as (At & Ae & -> & -> & _).
@@ -336,7 +338,7 @@ Proof.
       { split; [exact Ws|]. split; [exact (Ps P2 P1)|].
         split; [exact (Rel_dom.rel_dom_sum _ _ D2 D1)|].
         intros v Hv. apply Vs in Hv. destruct Hv as [Hv|Hv]; [exact (N2 v Hv)|exact (N1 v Hv)]. }
-      intros cs Hcs. cbv zeta.
+      intros cs Hcs. cbv beta zeta.
       destruct (Hboth cs Hcs) as (mt & me & i2 & -> & Ca & Cn & Cs & Da & _ & Dc). cbn [fst snd].
       destruct (Dc eq_refl) as (Ei2 & Dn & Ds).
       split; [|split].
@@ -388,7 +390,8 @@ Proof.
     { intros cs. cbn [derive]. rewrite El. destruct (derive fuel' V body cs index); reflexivity. }
     destruct (cr_exit rb) eqn:Ex.
     + injection H as <-.
-      exact (exit_sim V d rb _ (d_for V x) _ Sb Ex (An_main_aux.d_for_some V x) eq_refl eq_refl eq_refl).
+      apply (exit_sim V d rb (fun cs => derive fuel' V body cs index) (d_for V x));
+        [exact Sb|exact Ex|exact (An_main_aux.d_for_some V x)|reflexivity|reflexivity|reflexivity].
     + apply (CLF V d rb (fun cs => derive fuel' V body cs index) x r HV Sb Ex); [| | |exact H].
       * intros cs A HA. exact (An_main_aux.derive_finite_thm fuel' V body cs index A HA).
       * apply Hl. left; reflexivity.
